@@ -930,7 +930,7 @@ theorem keyInt_typed_shape (w : IntTy) (k : Bytes) (neg : Bool) (ds : Bytes) (h 
   have hq : quote k ++ 0x3a :: tl = 0x22 :: (k ++ 0x22 :: 0x3a :: tl) := by
     rw [quote_eq, hbody]; simp
   rw [hq]
-  have hsep : SepOK (0x22 :: 0x3a :: tl) := .inr ⟨0x22, _, rfl, .inr (.inr (.inr rfl))⟩
+  have hsep : SepOK (0x22 :: 0x3a :: tl) := .inr ⟨0x22, _, rfl, .inr (.inr (.inr (.inl rfl)))⟩
   -- through `agree_int` on the number whose text the key is
   have viaNum : ∀ (v : JV) (hv : VOK v) (hnf : ∀ b, v ≠ .num (.float b)) (hT : T ext v = k) (b : UInt8) (R : Bytes) (hbR : k ++ 0x22 :: 0x3a :: tl = b :: R)
       (hb : isNumStart b = true),
